@@ -169,6 +169,14 @@ func c12Faults() []c12Fault {
 		f("leaf-issued-by-processor-ca(O-3)", func(s *world.Spec, _ *rand.Rand) { s.Cert("inter").CN = "Intel SGX PCK Processor CA" }),
 		f("leaf-issued-by-unknown-ca", func(s *world.Spec, _ *rand.Rand) { s.Cert("inter").CN = "Intel SGX PCK Other CA" }),
 		f("leaf-without-sgx-extension", func(s *world.Spec, _ *rand.Rand) { s.Cert("leaf").Sgx.Absent = true }),
+		// what the PCK certificate SAYS about where its CRL lives is not what decides which CA's CRL is requested: the issuer is
+		f("leaf-crl-distribution-point-names-the-processor-ca", func(s *world.Spec, _ *rand.Rand) {
+			s.Cert("leaf").CRLDPs = []string{"https://api.trustedservices.intel.com/sgx/certification/v4/pckcrl?ca=processor&encoding=der"}
+		}),
+		f("leaf-crl-distribution-point-names-an-unknown-ca", func(s *world.Spec, _ *rand.Rand) {
+			s.Cert("leaf").CRLDPs = []string{"https://api.trustedservices.intel.com/sgx/certification/v4/pckcrl?ca=other"}
+		}),
+		f("leaf-without-crl-distribution-point", func(s *world.Spec, _ *rand.Rand) { s.Cert("leaf").CRLDPs = nil }),
 		// header maps that carry the issuer-chain name twice, in two spellings: only the exact name is the header
 		f("tcbinfo-header-also-in-lower-case(unverifiable-chain)", func(s *world.Spec, _ *rand.Rand) { s.TcbResp.HdrDecoy = "lower" }),
 		f("tcbinfo-header-also-in-upper-case(unverifiable-chain)", func(s *world.Spec, _ *rand.Rand) { s.TcbResp.HdrDecoy = "upper" }),
@@ -358,6 +366,8 @@ func c12All4(r *hx.Run, w *world.World, tags ...string) {
 type c12Shared struct {
 	o        *verify.Options
 	intended *[5]time.Time // what the caller put into Now (nil: never set / reset) — what a fresh options value would carry
+	set      bool          // the caller has written its two option flags at least once …
+	gc, cr   bool          // … and these are the values it last wrote
 }
 
 // c12Step: one call through the shared options + the fresh-options run of the same world at the same settings.
@@ -365,7 +375,15 @@ func c12Step(r *hx.Run, sh *c12Shared, w *world.World, gc, cr bool, pool []*x509
 	s := w.Spec
 	s.GC, s.CR, s.PoolNil = gc, cr, poolNil
 	w.PoolCerts = pool
-	sh.o.GetCollateral, sh.o.CheckRevocations, sh.o.Getter, sh.o.TrustedRoots = gc, cr, w.Getter, w.Pool()
+	// the caller writes a setting into its options value when it wants to CHANGE it — not before every call
+	if !sh.set || sh.gc != gc {
+		sh.o.GetCollateral = gc
+	}
+	if !sh.set || sh.cr != cr {
+		sh.o.CheckRevocations = cr
+	}
+	sh.set, sh.gc, sh.cr = true, gc, cr
+	sh.o.Getter, sh.o.TrustedRoots = w.Getter, w.Pool()
 	cur := sh.o.Now
 	s.Now = c12Arr(cur) // the line carries exactly what the shared value holds now
 	clock := time.Now()
@@ -547,6 +565,46 @@ func c12(r *hx.Run) {
 		for _, o := range [][2]bool{{true, true}, {true, false}} {
 			w.Spec.GC, w.Spec.CR = o[0], o[1]
 			c12Repeat(r, w, map[bool]int{true: 40, false: 8}[r.Tier == "thorough"], "fault:"+f.name)
+		}
+	}
+	// (e) systematic two-call histories over FAULTY worlds through one options value with both options on: a quote that an
+	// early check refuses, then a quote that only a later check (collateral, revocation) refuses — whatever the refused call
+	// left in the options, the next call performs every check its settings ask for
+	{
+		byName := map[string]c12Fault{}
+		for _, f := range faults {
+			byName[f.name] = f
+		}
+		firsts := []string{"leaf-expired", "leaf-not-yet-valid", "foreign-root-in-pool", "quote-signature-by-foreign-key", "report-data-hash-wrong", "tee-type-not-tdx", "tcbinfo-fetch-fails", "tcb-level-OutOfDate", "honest"}
+		seconds := []string{"leaf-revoked", "intermediate-revoked", "collateral-signer-revoked", "pckcrl-fetch-fails", "pckcrl-signed-by-foreign-key", "rootcrl-expired", "tcb-level-OutOfDate", "qe-level-OutOfDate", "tcbinfo-signature-by-foreign-key", "honest"}
+		idx := 0
+		for _, a := range firsts {
+			for _, b := range seconds {
+				idx++
+				if r.Tier != "thorough" && idx%2 == 0 && a != "leaf-expired" {
+					continue
+				}
+				rng := c05CaseRng(r, 0x62, idx)
+				now := time.Now()
+				mk := func(name string) *world.World {
+					s := c12Wall(rng, now)
+					byName[name].apply(s, rng)
+					s.Fault = name
+					return world.Build(s)
+				}
+				w1, w2 := mk(a), mk(b)
+				own := func(w *world.World) []*x509.Certificate {
+					var out []*x509.Certificate
+					for _, role := range w.Spec.Pool {
+						out = append(out, w.Certs[role].Cert)
+					}
+					return out
+				}
+				sh := &c12Shared{o: &verify.Options{}}
+				tags := []string{"history:fault-pair", "family:fault-pair", "first:" + a, "second:" + b}
+				c12Step(r, sh, w1, true, true, own(w1), w1.Spec.Pool == nil, append(tags, "step:1")...)
+				c12Step(r, sh, w2, true, true, own(w2), w2.Spec.Pool == nil, append(tags, "step:2")...)
+			}
 		}
 	}
 	c12UnsetCrlInstants(r)
